@@ -37,6 +37,7 @@ type analysis struct {
 	chunks     int
 	fin2       uint64 // the finalised height read by the catch-up's own setL1Head
 	dbFault    bool
+	retryPolls int // polls whose finalisedHeight needed more than one attempt (model op `poll`)
 	faultNotes int // listener notifications during the poll whose database access failed
 }
 
@@ -75,6 +76,10 @@ func linearise(c *Case, o *Observed, guard bool) *analysis {
 		}
 		return len(o.Notes)
 	}
+	chunk := fmt.Sprintf("%x", c.Chunk)
+	if c.DefaultChunk {
+		chunk = "-" // NewClient without WithCatchUpChunkSize: the model's newClientChunk {}
+	}
 	failAt := "none"
 	if c.FilterFailAt >= 0 {
 		failAt = fmt.Sprintf("%x", c.FilterFailAt)
@@ -84,6 +89,23 @@ func linearise(c *Case, o *Observed, guard bool) *analysis {
 	emitted := 0
 	prevLiveKind := ""
 	subscribedOnce := false
+	// failed FinalisedHeight attempts of the poll in progress (the model's pollStep / finalisedHeightLoop
+	// gets the whole attempt sequence of one setL1Head call) and failed WatchStateUpdate attempts of the
+	// subscription in progress (subscribeLoop)
+	pendErr, pendWatch := 0, 0
+	flushPoll := func() { // the poll ended without an answer (context ended / Run returned)
+		if pendErr > 0 {
+			a.steps = append(a.steps, modelStep{line: "poll" + strings.Repeat(" x", pendErr),
+				expect: fmt.Sprintf("calls=%d head=%s note=none", pendErr, lastHead(o).String()), what: "poll given up"})
+			pendErr = 0
+		}
+	}
+	flushSub := func() {
+		if pendWatch > 0 {
+			a.steps = append(a.steps, modelStep{line: "sub" + strings.Repeat(" 0", pendWatch), expect: "attempt=none", what: "subscription given up"})
+			pendWatch = 0
+		}
+	}
 
 	emitCatchup := func(res string, fin2 uint64, head *HeadJ, note *HeadJ) {
 		q := "-"
@@ -91,7 +113,7 @@ func linearise(c *Case, o *Observed, guard bool) *analysis {
 			q = strings.Join(queries, ",")
 		}
 		a.steps = append(a.steps, modelStep{
-			line:   fmt.Sprintf("catchup %x %x %x %s %x", c.Latest, c.Fin1, c.Chunk, failAt, fin2),
+			line:   fmt.Sprintf("catchup %x %x %s %s %x", c.Latest, c.Fin1, chunk, failAt, fin2),
 			expect: fmt.Sprintf("res=%s q=%s head=%s note=%s", res, q, head.String(), note.String()),
 			what:   "catch-up",
 		})
@@ -126,6 +148,14 @@ func linearise(c *Case, o *Observed, guard bool) *analysis {
 			case "tick":
 				if catchupEmitted || !sawFin1 || filterFailed {
 					a.problems = append(a.problems, "unexpected FinalisedHeight poll before the first subscription")
+					if filterFailed && !catchupEmitted {
+						// the scan went on after a failed log query and completed: the oracle judges the
+						// head it recorded against the provider's history like any completed scan
+						n0, n1 := m.NotesBefore, afterNotes(i)
+						a.sems = append(a.sems, sem{kind: "tick", fin: m.Fin, nodeFin: m.NodeFin, hasNodeFin: m.HasNodeFin,
+							after: afterHead(i), notes: n1 - n0, src: "catchup"})
+						a.catchup = "complete-after-failed-query"
+					}
 					continue
 				}
 				if o.DBFaultFired && i == o.DBFaultMark {
@@ -137,7 +167,7 @@ func linearise(c *Case, o *Observed, guard bool) *analysis {
 						q = strings.Join(queries, ",")
 					}
 					a.steps = append(a.steps, modelStep{
-						line:   fmt.Sprintf("catchupfault %x %x %x %s %x %s", c.Latest, c.Fin1, c.Chunk, failAt, m.Fin, c.DBFault),
+						line:   fmt.Sprintf("catchupfault %x %x %s %s %x %s", c.Latest, c.Fin1, chunk, failAt, m.Fin, c.DBFault),
 						expect: fmt.Sprintf("res=complete q=%s head=%s feed=%s", q, afterHead(i).String(), o.DBFaultHead.String()),
 						what:   "catch-up with failing database"})
 					a.catchup, a.chunks, catchupEmitted = "complete", len(queries), true
@@ -163,6 +193,9 @@ func linearise(c *Case, o *Observed, guard bool) *analysis {
 			}
 		}
 		// live phase
+		if emitted < m.Consumed && emitted < len(o.Events) && pendErr > 0 {
+			a.problems = append(a.problems, "the client consumed updates while inside finalisedHeight's retry loop")
+		}
 		for emitted < m.Consumed && emitted < len(o.Events) {
 			l := o.Events[emitted]
 			a.steps = append(a.steps, modelStep{line: l.line("upd")})
@@ -173,6 +206,9 @@ func linearise(c *Case, o *Observed, guard bool) *analysis {
 		case "tick":
 			if o.DBFaultFired && i == o.DBFaultMark {
 				// the database failed inside this setL1Head: Run has returned the error
+				for ; pendErr > 0; pendErr-- {
+					a.steps = append(a.steps, modelStep{line: "finerr"})
+				}
 				a.dbFault = true
 				a.faultNotes += afterNotes(i) - m.NotesBefore
 				a.steps = append(a.steps, modelStep{line: fmt.Sprintf("tickfault %x %s", m.Fin, c.DBFault),
@@ -191,20 +227,30 @@ func linearise(c *Case, o *Observed, guard bool) *analysis {
 				a.problems = append(a.problems, "more than one head notification from one poll")
 			}
 			h := afterHead(i)
-			a.steps = append(a.steps, modelStep{line: fmt.Sprintf("tick %x", m.Fin),
-				expect: fmt.Sprintf("head=%s note=%s", h.String(), note.String()), what: "poll"})
+			if pendErr > 0 {
+				a.steps = append(a.steps, modelStep{line: fmt.Sprintf("poll%s %x", strings.Repeat(" x", pendErr), m.Fin),
+					expect: fmt.Sprintf("calls=%d head=%s note=%s", pendErr+1, h.String(), note.String()), what: "poll"})
+				a.retryPolls++
+				pendErr = 0
+			} else {
+				a.steps = append(a.steps, modelStep{line: fmt.Sprintf("tick %x", m.Fin),
+					expect: fmt.Sprintf("head=%s note=%s", h.String(), note.String()), what: "poll"})
+			}
 			a.sems = append(a.sems, sem{kind: "tick", fin: m.Fin, nodeFin: m.NodeFin, hasNodeFin: m.HasNodeFin, after: h, note: note, notes: n1 - n0, src: "live"})
 		case "finerr":
-			a.steps = append(a.steps, modelStep{line: "finerr"})
+			pendErr++
 		case "watch", "watchfail":
+			flushPoll() // (cannot happen: a poll in progress ends with an answer or with the life)
 			if subscribedOnce && prevLiveKind != "watchfail" {
 				a.steps = append(a.steps, modelStep{line: "suberr"})
 			}
 			if m.Kind == "watch" {
-				a.steps = append(a.steps, modelStep{line: "resub 1"})
+				a.steps = append(a.steps, modelStep{line: "sub" + strings.Repeat(" 0", pendWatch) + " 1",
+					expect: fmt.Sprintf("attempt=%d", pendWatch), what: "subscription"})
+				pendWatch = 0
 				subscribedOnce = true
 			} else {
-				a.steps = append(a.steps, modelStep{line: "resub 0"})
+				pendWatch++
 			}
 		default:
 			a.problems = append(a.problems, "unexpected provider call after subscription: "+m.Kind)
@@ -219,6 +265,8 @@ func linearise(c *Case, o *Observed, guard bool) *analysis {
 			a.problems = append(a.problems, "catch-up neither completed nor failed")
 		}
 	}
+	flushPoll()
+	flushSub()
 	for emitted < len(o.Events) && o.Stalled == "" {
 		// consumed after the last provider call (cannot change the head any more)
 		l := o.Events[emitted]
@@ -226,15 +274,47 @@ func linearise(c *Case, o *Observed, guard bool) *analysis {
 		emitted++
 	}
 	a.steps = append(a.steps, modelStep{line: "head", expect: "head=" + o.FinalHead.String(), what: "final head"})
+	// the finality-status consumer: isL1Verified (copied literally from rpc helpers.go, evaluated on
+	// what Blockchain.L1Head() returned) against the model's, for n = 0, head.l2, head.l2 + 1
+	if o.Stalled == "" {
+		var l2 uint64
+		if o.FinalHead != nil {
+			l2 = o.FinalHead.L2
+		}
+		b := map[bool]string{false: "0", true: "1"}
+		a.steps = append(a.steps,
+			modelStep{line: "verified 0", expect: b[o.Verified[0]], what: "isL1Verified(0)"},
+			modelStep{line: fmt.Sprintf("verified %x", l2), expect: b[o.Verified[1]], what: "isL1Verified(head.l2)"})
+		if l2+1 != 0 {
+			a.steps = append(a.steps, modelStep{line: fmt.Sprintf("verified %x", l2+1), expect: b[o.Verified[2]], what: "isL1Verified(head.l2+1)"})
+		}
+	}
 	// the whole life again, this time through the model's own startUp / runLife
 	if o.Stalled == "" && !a.dbFault {
-		script := strings.Repeat("e", c.ChainIDFails)
-		if c.ChainIDMismatch {
-			script += "m"
-		} else {
-			script += "o"
+		// the answers the chain-id probes got, as observed; no answer left = the context ended
+		script, answered := "", false
+		for _, m := range o.Marks {
+			switch {
+			case m.Kind == "chainidfail":
+				script += "e"
+			case m.Kind == "chainid" && c.Geth && !answered && len(script) < c.ChainIDFails:
+				script += "e" // geth family: the node fails the first ChainIDFails probes
+			case m.Kind == "chainid":
+				answered = true
+				if c.ChainIDMismatch {
+					script += "m"
+				} else {
+					script += "o"
+				}
+			}
+		}
+		if script == "" {
+			script = "-"
 		}
 		gate := "fatal"
+		if !answered && c.Mode != "oneshot" {
+			gate = "cancelled"
+		}
 		for _, m := range o.Marks {
 			switch m.Kind {
 			case "latest", "latestfail", "watch", "watchfail":
@@ -252,9 +332,24 @@ func linearise(c *Case, o *Observed, guard bool) *analysis {
 			os = "1"
 		}
 		a.steps = append(a.steps, modelStep{
-			line: fmt.Sprintf("life %s %s %s %s %x %s %x", os, script, opt(c.LatestFail, c.Latest), opt(c.Fin1Fail, c.Fin1),
-				c.Chunk, failAt, a.fin2),
-			expect: fmt.Sprintf("gate=%s head=%s", gate, o.FinalHead.String()), what: "whole life (startUp/runLife)"})
+			line: fmt.Sprintf("life %s %s %s %s %s %s %x", os, script, opt(c.LatestFail, c.Latest), opt(c.Fin1Fail, c.Fin1),
+				chunk, failAt, a.fin2),
+			expect: fmt.Sprintf("gate=%s head=%s notes=%s err=%s", gate, o.FinalHead.String(), headList(o.Notes), orStr(o.RunErrClass, "none")),
+			what:   "whole life (startUp/runLife/lifeNotes/lifeErr)"})
 	}
 	return a
+}
+
+// lastHead: the stored head at the end of the observation.
+func lastHead(o *Observed) *HeadJ { return o.FinalHead }
+
+func headList(hs []HeadJ) string {
+	if len(hs) == 0 {
+		return "-"
+	}
+	xs := make([]string, len(hs))
+	for i := range hs {
+		xs[i] = (&hs[i]).String()
+	}
+	return strings.Join(xs, ",")
 }
